@@ -10,7 +10,8 @@ from harness.props import xmicommon as xc
 
 ID = "C01"
 COQ_TARGETS = ["Lex.vo", "LexProofs.vo", "XmiDoc.vo", "Xmi.vo", "XmiProofs.vo", "ReachProofs.vo", "ReachSpec.vo", "XmiWf.vo", "XmiDocOk.vo", "XmiResave.vo",
-               "XmiLoad.vo", "XmiLoadProofs.vo", "XmiLoadProofs2.vo", "XmiRt.vo", "XmiRtProofs.vo", "CorrC04.vo", "CorrC01.vo", "XmiExample.vo", "Props/C01.vo"]
+               "XmiLoad.vo", "XmiLoadProofs.vo", "XmiLoadProofs2.vo", "XmiLoadProofs3.vo", "XmiRt.vo", "XmiRtProofs.vo", "XmiRtTotal.vo",
+               "XmiRtTotalProofs.vo", "CorrC04.vo", "CorrC01.vo", "XmiExample.vo", "Props/C01.vo"]
 PROPS_FILE = "Props/C01.v"
 CORR_IMPORTS = "Base Heap Schema Canon XmiDoc Xmi CorrC01"
 OPEN_SCOPES = ["Z_scope"]
@@ -39,7 +40,10 @@ ASSUMPTIONS = [
     "schema and input CAS inside wf_rtb (XmiRt.v): wf_inb of C04 + the schema answers like a TypeSystem (schema_okb, "
     "sofa_feat_okb), defines uima.cas.NULL, type names survive the reader's string surgery, the CAS has _InitialView and "
     "indexed annotations are indexed in the view of their own sofa; load_cas_from_xmi is given the type system of the CAS",
-    "the round-trip theorem takes the success of the reader model as a hypothesis (no totality theorem for load_xmi)",
+    "wf_rt_totalb (XmiRtTotal.v) = wf_rtb + every structure whose type has the feature sofa holds the sofa of a view of this "
+    "CAS (Cas.add guarantees it for indexed structures; DESIGN 4.4: every serialised annotation has a sofa of this CAS): the "
+    "premise of the unconditional round trip C01_xmi_roundtrip; without it the reader raises KeyError on the writer's own "
+    "output (C01_reader_total_wf_rtb_refuted: referenced-only annotation whose sofa was never set)",
     "collections held by features without multipleReferencesAllowed are compared by content (object identity of inlined "
     "arrays / lists is not expressible in XMI); \"\" and null inside string arrays / lists are identified",
 ]
